@@ -42,6 +42,8 @@ type smInputKind struct {
 	tags   [][]string
 	sigAll bool
 	wit    func(w *spendWorld, secret string) string
+	// ser rewrites the canonical serialisation of the secret into another JSON text of the same value (nil: canonical)
+	ser func(string) string
 }
 
 type smCase struct {
@@ -97,6 +99,22 @@ func runSpendMint(c *Ctx) {
 				d := secretDigest(secret)
 				return htlcWitnessJSON(pre, []string{w.sign(k0, d, 0), w.sign(k0, d, 1)})
 			}},
+		// 8..13: the same NUT-10 secrets in other JSON spellings of the same value (insignificant whitespace, an escaped
+		// letter in the kind, other member order): whoever builds the locked output chooses the text, and the lock must hold
+		{label: "I1-unsigned/lead-space", kind: nut10.P2PK, data: k0.hex, tags: [][]string{{"sigflag", "SIG_INPUTS"}}, wit: func(*spendWorld, string) string { return "" },
+			ser: func(c string) string { return " " + c }},
+		{label: "H-wrong-preimage/lead-newline", kind: nut10.HTLC, data: hash, tags: [][]string{{"pubkeys", k0.hex}},
+			wit: func(w *spendWorld, secret string) string { return htlcWitnessJSON("00", []string{w.sign(k0, secretDigest(secret), 0)}) },
+			ser: func(c string) string { return "\n\t " + c }},
+		{label: "H-no-witness/escaped-kind", kind: nut10.HTLC, data: hash, tags: nil, wit: func(*spendWorld, string) string { return "" },
+			ser: func(c string) string { return strings.Replace(c, `["HTLC"`, `["\u0048TLC"`, 1) }},
+		{label: "I1-unsigned/inner-space", kind: nut10.P2PK, data: k0.hex, tags: [][]string{{"sigflag", "SIG_INPUTS"}}, wit: func(*spendWorld, string) string { return "" },
+			ser: func(c string) string { return strings.Replace(strings.Replace(c, `["P2PK",`, "[ \"P2PK\" ,\r\n", 1), `}]`, "} ] ", 1) }},
+		{label: "I1/lead-space", kind: nut10.P2PK, data: k0.hex, tags: [][]string{{"sigflag", "SIG_INPUTS"}}, wit: sigBy(k0),
+			ser: func(c string) string { return " " + c }},
+		{label: "H1/trail-space", kind: nut10.HTLC, data: hash, tags: [][]string{{"pubkeys", k0.hex}},
+			wit: func(w *spendWorld, secret string) string { return htlcWitnessJSON(pre, []string{w.sign(k0, secretDigest(secret), 0)}) },
+			ser: func(c string) string { return c + "\n" }},
 	}
 	var lists [][]int
 	base := []int{0, 1, 2, 3, 4}
@@ -112,7 +130,8 @@ func runSpendMint(c *Ctx) {
 		}
 	}
 	lists = append(lists, []int{0, 0, 0, 1}, []int{0, 0, 1, 0}, []int{0, 1, 0, 0}, []int{1, 0, 0, 0}, []int{0, 0, 0, 4},
-		[]int{5}, []int{1, 5}, []int{6}, []int{0, 6}, []int{7}, []int{3, 3, 3}, []int{1, 1, 1, 1})
+		[]int{5}, []int{1, 5}, []int{6}, []int{0, 6}, []int{7}, []int{3, 3, 3}, []int{1, 1, 1, 1},
+		[]int{8}, []int{0, 8}, []int{9}, []int{9, 0}, []int{10}, []int{0, 10, 0}, []int{11}, []int{12}, []int{0, 12}, []int{13}, []int{13, 0})
 	type outVariant struct {
 		label string
 		wit   func(B_ string, i int) string
@@ -156,6 +175,9 @@ func runSpendMint(c *Ctx) {
 					sec = fmt.Sprintf("%064x", 0x5e0000000000+nonce)
 				} else {
 					sec = secretString(in.kind, fmt.Sprintf("%064x", nonce), in.data, in.tags)
+					if in.ser != nil {
+						sec = in.ser(sec)
+					}
 				}
 				cs.secrets = append(cs.secrets, sec)
 				cs.labels = append(cs.labels, in.label)
